@@ -231,6 +231,7 @@ package bt
 //@   ensures[C10.fee_left_new_output] (=> (and (= err nil) r1 (not (nil? output)) (. output newOutput) (not (nil? (. output lockingScript)))) (= (- (old (spec.sum_in tx)) (+ (old (spec.sum_out tx)) r0)) (spec.quoted f (+ (old (spec.est_std tx)) (spec.new_output_bytes (len (. output lockingScript)) (old (len (. tx Outputs))))) (old (spec.est_data tx)))))
 //@   ensures[C10.fee_left_existing_output] (=> (and (= err nil) r1 (nil? output)) (and (= (- (old (spec.sum_in tx)) (+ (old (spec.sum_out tx)) r0)) (spec.quoted f (old (spec.est_std tx)) (old (spec.est_data tx)))) (= (. tx Outputs) (old (. tx Outputs)))))
 //@   ensures[C10.existing_outputs_untouched] (=> (= err nil) (forall ((k Int)) (=> (and (<= 0 k) (< k (old (len (. tx Outputs))))) (= (at (. tx Outputs) k) (old (at (. tx Outputs) k))))))
+//@   ensures[C10.existing_fields_untouched] (=> (= err nil) (forall ((k Int)) (=> (and (<= 0 k) (< k (old (len (. tx Outputs)))) (old (allocated (at (. tx Outputs) k)))) (and (= (. (at (. tx Outputs) k) Satoshis) (old (. (at (. tx Outputs) k) Satoshis))) (= (. (at (. tx Outputs) k) LockingScript) (old (. (at (. tx Outputs) k) LockingScript)))))))
 //@   ensures[C10.outputs_stay_nonnil] (=> (and (= err nil) (or (nil? output) (not (. output newOutput)))) (spec.outputs_nonnil tx))
 //@   ensures[C10.change_output_appended] (=> (and (= err nil) r1 (not (nil? output)) (. output newOutput)) (and (= (len (. tx Outputs)) (+ (old (len (. tx Outputs))) 1)) (= (. (at (. tx Outputs) (old (len (. tx Outputs)))) Satoshis) r0) (= (. (at (. tx Outputs) (old (len (. tx Outputs)))) LockingScript) (. output lockingScript))))
 
@@ -244,6 +245,7 @@ package bt
 
 //@ func bt.(*Tx).ChangeToExistingOutput
 //@   opt writes-existing F:bt.Output.Satoshis
+//@   ensures[C10.existing_others_untouched] (=> (= err nil) (forall ((k Int)) (=> (and (<= 0 k) (< k (len (. tx Outputs))) (old (allocated (at (. tx Outputs) k))) (distinct (at (. tx Outputs) k) (at (. tx Outputs) index))) (and (= (at (. tx Outputs) k) (old (at (. tx Outputs) k))) (= (. (at (. tx Outputs) k) Satoshis) (old (. (at (. tx Outputs) k) Satoshis))) (= (. (at (. tx Outputs) k) LockingScript) (old (. (at (. tx Outputs) k) LockingScript)))))))
 //@   requires (spec.inputs_nonnil tx) (spec.outputs_nonnil tx)
 //@   requires (< (spec.sum_in tx) 18446744073709551616) (< (spec.sum_out tx) 18446744073709551616) (<= 0 (spec.sum_in tx)) (<= 0 (spec.sum_out tx))
 //@   requires (=> (not (nil? f)) (spec.wf_quote f))
